@@ -6,6 +6,7 @@ import Proofs.Ledger
 import Proofs.FrameFn
 import Proofs.WF
 import Proofs.SupplyHistory
+import Proofs.Unified
 namespace C02
 open Esdt
 
@@ -192,8 +193,95 @@ example : SInv svA0 := by
   · intro a k t m hk hne _ _
     exact absurd (hread a k hk) hne
 
+/-! ### ONE world, all 23 functions (Proofs/Unified.lean) -/
+
+/-- FULL (per call, the 20 functions that are not transfers, any caller, any arguments): a successful call keeps the shard
+    invariant and moves the shard's sum of balances under every token key by `localDelta`: the stated amount for the nine
+    supply operations, nothing for claim / change owner / user name / SaveKeyValue / set role / unset role / hand-over /
+    add URI / update attributes, and for pause / un-pause minus whatever the system account's own slot was worth (it is
+    overwritten by the flag pair: 0 unless tokens had been sent to the system account itself) -/
+theorem call_moves_ledger_by_stated_amount (f : FnId) (env : Env) (c : Call) (A : Accts) (out : VMOutput) (ctx' : Ctx)
+    (hI : SInv A) (ok : LocalOK env f c A) (h : exec env f c { accts := A } = .ok (out, ctx')) :
+    SInv ctx'.accts ∧ ∀ k, TokKey k → balAt ctx'.accts k = balAt A k + localDelta f c A out k :=
+  local_step f env c A out ctx' hI ok h
+
+/-- FULL (per step of the mixed world): user transactions, deliveries, refusals and refunds of the three transfer
+    functions and calls of the 20 other functions on any shard -/
+theorem step_moves_ledger_by_issued_amount (e : Env) (w : UWorld) (st : UStep) (hI : UInv e w) (hok : UStepOK e w st) :
+    (∀ k, TokKey k → usupply (ustep e w st) k = usupply w k + issued e w st k) ∧ UInv e (ustep e w st) :=
+  ustep_ledger e w st hI hok
+
+/-- FULL (histories; every function, every interleaving, any number of shards): in the world where all 23 functions are
+    mixed — messages of the three transfer functions sent, delivered, refused and refunded in any order, and between any
+    two such steps calls of the other functions by anybody on any shard — the ledger of every token key (every balance on
+    every shard plus everything in flight) is, after the history, what it was plus the stated amounts of the supply
+    operations that succeeded.  Hypotheses: the invariant of the INITIAL world and the admissibility of each step
+    (`UStepOK`: sender-side transfer forms by ordinary accounts, the system account neither sender nor destination,
+    arguments that are Go slices, no counter at 2^64 − 1), nothing about intermediate states. -/
+theorem ledger_over_all_histories (e : Env) (steps : List UStep) (w : UWorld) (hI : UInv e w) (hok : UStepsOK e steps w) :
+    (∀ k, TokKey k → usupply (urun e steps w).1 k = usupply w k + (urun e steps w).2 k) ∧ UInv e (urun e steps w).1 :=
+  unified_history e steps w hI hok
+
+/-! non-vacuity: two shards; Alice (shard 0) mints 5, sends 3 to Bob (shard 1); the system contract gives Bob the burn
+    role while the message is in flight; the message is delivered; Bob burns 1: issued 5 − 1, shards hold 2 and 2 -/
+def uvEnv : Env := { self := 0, nshards := 2, payable := fun _ => .yes, dns := [], nameChange := false, gas := {}, active := true }
+def uvAlice : Bytes := List.replicate 32 2
+def uvBob : Bytes := List.replicate 32 1
+def uvA0 : Accts := Accts.write [] uvAlice (roleKeyPrefix ++ svTok) (encRoles [roleLocalMint, roleLocalBurn])
+def uvW0 : UWorld := { shards := [uvA0, []], ft := [], nft := [], multi := [] }
+def uvMint : Call := { fn := fnESDTLocalMint, caller := uvAlice, rcv := uvAlice, args := [svTok, [5]], gas := 100 }
+def uvXfer : Call := { fn := fnESDTTransfer, caller := uvAlice, rcv := uvBob, args := [svTok, [3]], gas := 100 }
+def uvSetRole : Call := { fn := fnSetESDTRole, caller := esdtSCAddress, rcv := uvBob, args := [svTok, roleLocalBurn], gas := 100 }
+def uvBurn : Call := { fn := fnESDTLocalBurn, caller := uvBob, rcv := uvBob, args := [svTok, [1]], gas := 100 }
+def uvSteps : List UStep :=
+  [.call 0 .localMint uvMint, .ft (.user uvXfer), .call 1 .setRole uvSetRole, .ft (.deliver 0), .call 1 .localBurn uvBurn]
+
+example : (urun uvEnv uvSteps uvW0).2 (esdtKeyPrefix ++ svTok) = 4 ∧
+    usupply (urun uvEnv uvSteps uvW0).1 (esdtKeyPrefix ++ svTok) = 4 ∧
+    (urun uvEnv uvSteps uvW0).1.shards.map (balAt · (esdtKeyPrefix ++ svTok)) = [2, 2] ∧
+    (urun uvEnv uvSteps uvW0).1.ft.length = 0 ∧ usupply uvW0 (esdtKeyPrefix ++ svTok) = 0 := by decide +kernel
+
+theorem sinv_nil : SInv [] :=
+  ⟨by simp [Accts.Nodup], (fun _ _ _ _ => Or.inl rfl), fun _ _ => by show ([] : Bytes).length < two63; decide,
+   fun _ _ _ _ _ hne _ _ => absurd rfl hne⟩
+
+example : UInv uvEnv uvW0 := by
+  have hread : ∀ a k, TokKey k → uvA0.read a k = [] := by
+    intro a k hk
+    unfold uvA0
+    have hne : ¬ (uvAlice = a ∧ roleKeyPrefix ++ svTok = k) := fun h => not_tokKey_role svTok (h.2 ▸ hk)
+    rw [Accts.read_write, if_neg hne]
+    rfl
+  have h0 : SInv uvA0 := by
+    refine ⟨by simp [Accts.Nodup, uvA0, Accts.write, Accts.set], fun a k hk _ => Or.inl (hread a k hk), ?_, ?_⟩
+    · intro a k
+      unfold uvA0
+      rw [Accts.read_write]
+      split
+      · decide +kernel
+      · show ([] : Bytes).length < two63; decide
+    · intro a k t m hk hne _ _
+      exact absurd (hread a k hk) hne
+  refine ⟨?_, fun _ h => (by cases h), fun _ h => (by cases h), fun _ h => (by cases h)⟩
+  intro A hA
+  simp only [uvW0, List.mem_cons, List.mem_nil_iff, or_false] at hA
+  rcases hA with rfl | rfl
+  · exact h0
+  · exact sinv_nil
+
+example : UStepsOK uvEnv uvSteps uvW0 := by
+  have short1 : ∀ (x : UInt8), ([x] : Bytes).length < two63 := fun _ => by show 1 < two63; decide
+  refine ⟨fun A _ => ⟨rfl, ?_, fun _ => (by decide), fun _ => ⟨by decide, by decide⟩, fun h => (by cases h)⟩,
+    ⟨by decide, by decide⟩,
+    fun A _ => ⟨rfl, ?_, fun h => (by revert h; decide), fun _ => ⟨by decide, by decide⟩, fun h => (by cases h)⟩,
+    trivial,
+    fun A _ => ⟨rfl, ?_, fun _ => (by decide), fun _ => ⟨by decide, by decide⟩, fun h => (by cases h)⟩, trivial⟩
+  all_goals
+    intro a ha
+    simp only [uvMint, uvSetRole, uvBurn, List.mem_cons, List.mem_nil_iff, or_false] at ha
+    rcases ha with rfl | rfl <;> decide
+
 -- "Never negative" over histories: C15.wf_history (every stored entry decodes to a strictly positive balance or a flagged
--- zero).  The transfer functions: C01 (three world models).  PARTIAL only in that ONE world mixing the supply operations with
--- the transfer functions across shards is not formalised (the supply oracle evaluates that sum on every generated history).
+-- zero).
 
 end C02
